@@ -10,7 +10,7 @@ RULE = ("generated transition systems (sysgen.gen_sys: 1..4 (1/5: ..6) bit-vecto
         "pre ++ [snapshot] ++ h ++ between ++ [restore] ++ h' and the reads of h and h' are also compared with each other directly; 1/8 of "
         "the other histories may contain operations outside the property's domain (undeclared symbol, bad snapshot id, div/rem) and 1/25 start "
         "without init: there implementation and model must crash at the same operation. Products wider than 128 bits and array equality are "
-        "not generated (known baa defects, see known_findings.txt: one corpus case each). distinct = distinct (system, history) pairs; every "
+        "not generated (known baa defects, see known_findings.txt; corpus/C07 holds one case for the former and the regression case of the repaired shift-left defect). distinct = distinct (system, history) pairs; every "
         "case runs the implementation, the extracted model and (inside the domain) the extracted specification on every operation")
 ASSUMPTIONS = [
     "the Gallina model Model/Sim.v mirrors patronus/src/sim/interpreter.rs and SymbolValueStore (hand-written; tied by differential execution on the generated histories)",
@@ -28,10 +28,7 @@ ASSUMPTIONS = [
     "histories that start with init",
 ]
 TRUSTED = ["ocaml/driver/c07.ml compares, per operation, the implementation's result with Model.spec_exec (oracle) and Model.exec (model); "
-           "it decides domain membership with the extracted sim_ok / op_ok; a differing step count or snapshot id alone is reported as diff, not fail",
-           "ocaml/driver/c07.ml labels a failure with the known-finding key baa-shl-by-multiple-of-64-msb-not-masked only in histories in which the "
-           "simulator has evaluated a shift-left node of that class (width > 64 and not a multiple of 64, amount a non-zero multiple of 64 below the "
-           "width, a bit of the operand shifted beyond the width), operand values taken from the specification"]
+           "it decides domain membership with the extracted sim_ok / op_ok; a differing step count or snapshot id alone is reported as diff, not fail"]
 
 
 def streams(tier, seed):
